@@ -1,12 +1,42 @@
-"""C13 TL2 readers tolerate schema evolution and non-minimal encodings (engine A, schema-free part)."""
+"""C13 TL2 readers tolerate schema evolution and non-minimal encodings (engine A; structure from the interpreter's byte roles)."""
 from .. import codec
 
-RULE = ("schema-free part on packages generated from the repository schemas (outermost object only): minimal TL2 bytes re-encoded with the outermost size in "
-        "huge (0xff) form, an empty object as a huge-form zero size => accepted, exactly consumed (suffix check), same value; declared size 1-4 bytes beyond "
-        "the input => rejected. (Appended unknown fields, truncated bodies, explicit zero masks and nested non-minimal sizes need field boundaries and are "
-        "exercised by the reference-model engine.) distinct_nontrivial = distinct (item, variant, transformation).")
+RULE = ("packages generated from the repository schemas and random SchemaGen schemas. Outermost object (schema-free): size in huge (0xff) form, an empty object as a huge-form "
+        "zero size => accepted, exactly consumed (suffix check), same value; declared size 1-4 bytes beyond the input => rejected. At depth: for values on which generated "
+        "code and the dynamic interpreter write the same bytes, the interpreter's ByteBuilder gives the role of every byte (object size, element count, variant index, string "
+        "size, field mask); with the positions of all size fields the canonical bytes are rewritten - any size / count / index / string length at any nesting depth in the "
+        "9-byte form (enclosing sizes repaired), an empty object as size 1 + zero mask byte, unknown trailing bytes (and a presence bit the schema does not have) in an "
+        "outermost struct with one mask block => accepted, exactly consumed, rewritten to the canonical bytes; a nested size that declares more than its parent has left => "
+        "rejected. distinct_nontrivial = distinct (item, transformation).")
 
 
 def run(ctx):
-    codec.simple_check(ctx, "c13", RULE, [("types", "types", 100), ("values", "values", 3000), ("huge-form sizes", "huge_form_sizes", 3000),
-                                          ("oversize objects", "oversize_objects", 3000)], 40, 300, random_quick=2, random_thorough=20)
+    thorough = ctx.tier == "thorough"
+    ctx.make_scratch()
+    sets = codec.REPO_SETS_ALL if thorough else codec.REPO_SETS_QUICK
+    pkgs = [(p, None) for p in codec.repo_packages(ctx, sets, ["tl2all"] + (["split", "nobytes"] if thorough else []))]
+    pkgs += codec.random_packages(ctx, 20 if thorough else 2, "c13")
+    tot = {}
+    for p, sch in pkgs:
+        env = {"VERIF_VALUES": 300 if thorough else 40}
+        t, _ = codec.run_mode(ctx, p, "c13", env=env, reclass=codec.sanity_reclass(sch) if sch else None)
+        for k, v in t.items():
+            tot[k] = tot.get(k, 0) + v
+        if p.config == "tl2all":
+            env = {"VERIF_VALUES": 60 if thorough else 16, "VERIF_TL2WL": "*", "VERIF_SCHEMA_FILES": ":".join(p.files)}
+            t, _ = codec.run_mode(ctx, p, "c13deep", env=env, what="c13deep on %s/%s" % (p.schema, p.config))
+            for k, v in t.items():
+                tot["deep_" + k] = tot.get("deep_" + k, 0) + v
+    ctx.cov["rule"] = RULE
+    ctx.count(tot.get("values", 0) + tot.get("deep_values_with_structure", 0))
+    nested = sum(v for k, v in tot.items() if k.startswith("deep_huge-form-") and k.endswith("-nested"))
+    ctx.cov.setdefault("counters", {})["deep_nested_non_minimal_forms"] = nested
+    ctx.require("types", tot.get("types", 0), 100)
+    ctx.require("values", tot.get("values", 0), 3000)
+    ctx.require("huge-form sizes (outermost)", tot.get("huge_form_sizes", 0), 3000)
+    ctx.require("oversize objects", tot.get("oversize_objects", 0), 3000)
+    ctx.require("values with known structure", tot.get("deep_values_with_structure", 0), 1000)
+    ctx.require("nested non-minimal forms", nested, 1000)
+    ctx.require("explicit zero masks", tot.get("deep_empty-object-as-explicit-zero-mask", 0), 100)
+    ctx.require("unknown trailing fields", tot.get("deep_unknown-trailing-fields-outermost", 0), 200)
+    ctx.require("nested oversize", tot.get("deep_nested-size-beyond-parent", 0), 200)
